@@ -80,6 +80,9 @@ M = [
     ("hc_accept_unwrap", "C08", "src/server.rs", "                match stream.write_all(HTTP_RESPONSE.as_bytes()) {\n                    Ok(_) => (),\n                    Err(e) => warn!(\"error writing health check {}\", e),\n                };", "                stream.write_all(HTTP_RESPONSE.as_bytes()).unwrap();", "break"),
     ("h_config_helper", "C16", "src/config/mod.rs", "    if cfg.batch_size() < 1 || cfg.batch_size() > 64 {", "    if !(1..=64).contains(&cfg.batch_size()) {", "harmless"),
     ("h_reporter_counter_type", "C17", "src/stats/reporter.rs", "let mut num_processed = 0;\n\n        while let", "let mut num_processed: i32 = 0;\n\n        while let", "harmless"),
+    ("st_pc_total_valid_only_rfc", "C17", "src/stats/per_client.rs", ".map(|&v| v.rfc_requests as u64 + v.classic_requests as u64)", ".map(|&v| v.rfc_requests as u64)", "break"),
+    ("st_pc_total_bytes_counts_responses", "C17", "src/stats/per_client.rs", "self.clients.values().map(|&v| v.bytes_sent).sum()", "self.clients.values().map(|&v| v.rfc_responses_sent as usize).sum()", "break"),
+    ("st_agg_getter_wrong_field", "C17", "src/stats/aggregated.rs", "    fn total_health_checks(&self) -> u64 {\n        self.health_checks", "    fn total_health_checks(&self) -> u64 {\n        self.invalid_requests", "break"),
     # ---- harmless edits: must never give a VIOLATION ----
     ("h_msg_extra_capacity", "C05", "src/message.rs", "let mut out = Vec::with_capacity(self.encoded_size());", "let mut out = Vec::with_capacity(self.encoded_size() + 0);", "harmless"),
     ("h_merkle_renamed_local", "C04", "src/merkle.rs", "let mut node_count = self.levels[0].len();", "let mut node_count: usize = self.levels[0].len();", "harmless"),
